@@ -228,6 +228,7 @@ theorem initSt_inv {e : Env} {pool : List Tx} (hp : PoolOk pool) (he : EnvOk e) 
       sigLim := he.cbSig
       weight := ?_
       weightLim := ?_
+      wiOnly := by intro hh; cases hh
       qOk := h.qOk
       wOk := h.wOk }
   · intro op en hl
